@@ -369,6 +369,10 @@ def main():
     except ToolError as e:
         print(f"TOOL-ERROR: {e}", file=sys.stderr)
         sys.exit(2)
+    except Exception:
+        import traceback
+        print("TOOL-ERROR: unexpected exception in the orchestrator:\n" + traceback.format_exc(), file=sys.stderr)
+        sys.exit(2)
     finally:
         if not args.keep:
             shutil.rmtree(work, ignore_errors=True)
